@@ -15,6 +15,10 @@ Refactor code in these files only (pick functions that carry real logic: validat
 {chr(10).join('- ' + f for f in files)}
 {('Refactor ONLY these functions (one patch per function, six different functions, pick the ones with the most logic):' + chr(10) + chr(10).join('- `' + f + '`' for f in fns)) if fns else ''}
 
+## Already done by others (choose DIFFERENT functions, or a clearly different kind of edit on the same function)
+
+{open('/tmp/props/refactors_done.txt').read() if __import__('os').path.exists('/tmp/props/refactors_done.txt') else ''}
+
 ## What kind of edits
 
 Each of the six patches must be a DIFFERENT kind of refactoring, 3-40 changed lines, for example: rename a parameter or local everywhere in a function; extract part of a function into a private helper in the same file; inline a small private helper into its only caller; rewrite a `for` loop as an iterator chain (or the reverse); `match` <-> `if let` / `let else` / `matches!`; early `return Err(..)` <-> `cond.then_some(()).ok_or(..)?` or nested `if/else`; `x.is_none()` <-> `!x.is_some()` <-> pattern; reorder two INDEPENDENT statements or two independent checks; replace hand-written code by the equivalent std method (or the reverse); introduce or remove an intermediate `let`; replace `a > b` by `b < a`; merge two `if`s into `&&` or split one; change a `&Vec<T>` parameter to `&[T]`; replace `.clone()` on a Copy/cheap value by a borrow where the types allow; convert a closure into a small named fn.
